@@ -3,7 +3,7 @@ use std::io::Write;
 use std::time::Instant;
 
 fn usage() -> ! {
-    eprintln!("usage: bsv <PROP> <quick|thorough> [--seed N] [--out FILE] [--shard i/n] [--known a,b] [--replay FILE] [--sub NAME]");
+    eprintln!("usage: bsv <PROP> <quick|thorough> [--seed N] [--out FILE] [--shard i/n] [--known a,b] [--replay FILE] [--sub NAME] [--order N]");
     std::process::exit(2);
 }
 
@@ -78,6 +78,7 @@ fn main() {
             }
             "--known" => ctx.known = v.split(',').filter(|s| !s.is_empty()).map(|s| s.to_string()).collect(),
             "--sub" => ctx.only_sub = Some(v),
+            "--order" => ctx.order = v.parse().unwrap_or(0),
             "--replay" => {
                 let txt = std::fs::read_to_string(&v).unwrap_or_else(|e| {
                     eprintln!("cannot read replay file {v}: {e}");
@@ -88,6 +89,7 @@ fn main() {
                     std::process::exit(2)
                 });
                 ctx.mode = Mode::Replay { sub: j["sub"].as_str().unwrap_or("").to_string(), case: j["case"].clone() };
+                ctx.order = j["order"].as_u64().unwrap_or(0) as u32;
             }
             _ => usage(),
         }
